@@ -34,7 +34,10 @@ RULE = ('one case = one seeded database (universe biased towards what makes set 
         'read-only calls shows up as a difference). oracle: byte-identical canonical '
         'transcripts (list/tuple/dict order kept, sets sorted, floats by repr, files by '
         'bytes) across all processes and repetitions; table dump unchanged by the battery. one '
-        'evaluation = one (database, hash seed, repetition) transcript. distinct = distinct '
+        'evaluation = one (database, hash seed, repetition) transcript, or one twin comparison '
+        '(two Wordnet objects created back to back, read-only calls made through one of them '
+        'only, then three seeded rounds of remove + re-add of a lexicon - 20% by another '
+        'process - and identical transcripts required from both after each). distinct = distinct '
         '(database digest, hash seed); non-trivial = database has a synset pair with >=2 common '
         'hypernyms')
 ASSUMPTIONS = ['thread schedules are not varied: no property quantifies over them (DESIGN 6.3)']
@@ -96,6 +99,180 @@ def name_call(path):
     return m.group(1) if m else path.split('/')[1] if '/' in path else path
 
 
+
+# -- twins: read-only calls do not change the result of later calls ---------------------------
+def _canon(x):
+    if isinstance(x, (wn.Word, wn.Sense, wn.Synset)):
+        return [type(x).__name__, x.id, getattr(x, '_ili', None) if x.id.startswith('*') else None,
+                getattr(x, '_lexid', None)]
+    if isinstance(x, wn.Lexicon):
+        return ['Lexicon', x.specifier()]
+    if isinstance(x, wn.Relation):
+        return ['Relation', x.name, x.source_id, x.target_id, x._lexicon, x.subtype]
+    if isinstance(x, float):
+        return repr(x)
+    if isinstance(x, (str, int, bool)) or x is None:
+        return x
+    if isinstance(x, dict):
+        return [[_canon(k), _canon(v)] for k, v in x.items()]
+    if isinstance(x, (set, frozenset)):
+        return sorted((_canon(i) for i in x), key=json.dumps)
+    if isinstance(x, (list, tuple)):
+        return [_canon(i) for i in x]
+    return repr(x)
+
+
+def _call(fn, *a, **kw):
+    import itertools
+    import warnings
+    try:
+        with warnings.catch_warnings():
+            warnings.simplefilter('ignore')
+            r = fn(*a, **kw)
+            if hasattr(r, '__next__'):
+                r = list(itertools.islice(r, 200))
+        return _canon(r)
+    except RecursionError:
+        return ['RecursionError']
+    except Exception as e:                      # noqa: BLE001 - part of the transcript
+        return ['exc', type(e).__name__]
+
+
+def twin_transcript(w, specs, handles=None):
+    """Every kind of read-only call on one Wordnet object (and on entity handles obtained
+    from it earlier), in a fixed order."""
+    import wn.similarity
+    import wn.taxonomy
+    t = {'lexicons': _call(w.lexicons), 'expanded': _call(w.expanded_lexicons)}
+    try:
+        words, senses, synsets = w.words()[:5], w.senses()[:5], w.synsets()[:7]
+    except Exception as e:                      # noqa: BLE001
+        return dict(t, enumeration=['exc', type(e).__name__])
+    t['enum'] = _canon([words, senses, synsets])
+    if handles:
+        synsets = synsets + list(handles)
+    for i, ss in enumerate(synsets):
+        k = 'SS%d:%s' % (i, ss.id)
+        t[k] = [_call(ss.get_related), _call(ss.relations), _call(ss.relation_map),
+                _call(ss.closure, 'hypernym'), _call(ss.hypernym_paths),
+                _call(ss.hypernym_paths, simulate_root=True),
+                _call(ss.min_depth), _call(ss.max_depth), _call(ss.senses), _call(ss.words),
+                _call(ss.lemmas), _call(ss.definition), _call(ss.lexicon),
+                [_call(ss.translate, lexicon=sp) for sp in specs[:4]]]
+    for i, se in enumerate(senses):
+        t['S%d:%s' % (i, se.id)] = [_call(se.word), _call(se.synset), _call(se.get_related),
+                                    _call(se.get_related_synsets), _call(se.relations),
+                                    [_call(se.translate, lexicon=sp) for sp in specs[:2]]]
+    for i, wd in enumerate(words):
+        t['W%d:%s' % (i, wd.id)] = [_call(wd.senses), _call(wd.synsets), _call(wd.forms),
+                                    _call(wd.derived_words),
+                                    [_call(wd.translate, lexicon=sp) for sp in specs[:2]]]
+    sel = synsets[:4] + (list(handles)[:2] if handles else [])
+    for i, a in enumerate(sel):
+        for j, b in enumerate(sel):
+            if i >= j or a.pos != b.pos:
+                continue
+            t['P%d-%d' % (i, j)] = [
+                _call(wn.taxonomy.shortest_path, a, b),
+                _call(wn.taxonomy.shortest_path, a, b, simulate_root=True),
+                _call(a.common_hypernyms, b), _call(a.lowest_common_hypernyms, b),
+                _call(a.lowest_common_hypernyms, b, simulate_root=True),
+                _call(wn.similarity.path, a, b), _call(wn.similarity.path, a, b, True),
+                _call(wn.similarity.wup, a, b), _call(wn.similarity.wup, a, b, True),
+                _call(wn.similarity.lch, a, b, 5), _call(wn.similarity.lch, a, b, 5, True)]
+    return t
+
+
+def twin_phase(sim, u, seed):
+    """Two Wordnet objects created back to back with the same arguments differ in nothing
+    but the read-only calls made through one of them; whatever happens to the database
+    afterwards (lexicons and extensions added, removed, added again under other row numbers,
+    by this or by another process) the two must answer every later call identically - C16:
+    'read-only calls do not change the result of later calls'."""
+    rng = subseed(seed, 'twins')
+    twins = []
+    n_cmp = 0
+
+    def configs():
+        inst = list(sim.m.installed)
+        cfgs = [{}]
+        for sp in inst:
+            cfgs.append({'lexicon': sp})
+            cfgs.append({'lexicon': sp, 'expand': '*'})
+            fam = [sp] + sim.m.extensions_of(sp)
+            if len(fam) > 1:
+                cfgs.append({'lexicon': ' '.join(fam)})
+        langs = sorted({u['lexicons'][sp]['language'] for sp in inst})
+        if langs:
+            cfgs.append({'lang': rng.choice(langs)})
+        rng.shuffle(cfgs)
+        return [{}] + [c for c in cfgs if c][:3]
+
+    def make():
+        specs = list(sim.m.installed)
+        rng.shuffle(specs)
+        for cfg in configs():
+            try:
+                import warnings
+                with warnings.catch_warnings():
+                    warnings.simplefilter('ignore')
+                    a, b = wn.Wordnet(**cfg), wn.Wordnet(**cfg)
+            except wn.Error:
+                continue
+            ha = a.synsets()[:3]
+            twin_transcript(a, specs, ha)           # the read-only calls; results not kept
+            hb = b.synsets()[:3]
+            twins.append({'cfg': cfg, 'a': a, 'b': b, 'ha': ha, 'hb': hb, 'specs': specs,
+                          'step': sim.step})
+        del twins[:-8]
+
+    def compare(op):
+        nonlocal n_cmp
+        for t in twins:
+            ta = twin_transcript(t['a'], t['specs'], t['ha'])
+            tb = twin_transcript(t['b'], t['specs'], t['hb'])
+            n_cmp += 1
+            d_ = first_diff(ta, tb)
+            if d_:
+                raise Violation(
+                    PROP, 'twin', 'two Wordnet objects created with the same arguments at the '
+                    'same moment answer differently after a later change of the database: the '
+                    'read-only calls made earlier through one of them changed its later results',
+                    {'cfg': t['cfg'], 'created_at_step': t['step'], 'after_op': op,
+                     'path': d_[0], 'queried_before': d_[1], 'not_queried_before': d_[2]},
+                    tags=['twin'])
+
+    def do(op):
+        sim.do(op)
+        compare(op)
+        make()
+
+    res_of = {sp: r['name'] for r in u['resources'] for sp in r['lexicons']}
+    make()
+    for _round in range(3):
+        inst = list(sim.m.installed)
+        if not inst:
+            break
+        # prefer victims that do not hold the highest row number (their re-added copy gets a
+        # new one) and extensions (a default-mode Wordnet sees them come and go)
+        exts = [sp for sp in inst if sim.m.idx[sp].base is not None]
+        x = rng.choice(exts) if exts and rng.random() < 0.5 else rng.choice(inst[:-1] or inst)
+        gone = [x] + sim.m.extensions_of(x)
+        do({'op': 'remove', 'spec': x})
+        back = []
+        for sp in [g for g in u['order'] if g in gone]:
+            if res_of[sp] not in back:
+                back.append(res_of[sp])
+        if rng.random() < 0.3:
+            back.reverse()
+        for name in back:
+            op = {'op': 'add', 'res': name}
+            if rng.random() < 0.2:
+                op = {'op': 'external', 'do': op}
+            do(op)
+    return n_cmp
+
+
 def run_one(seed, tier, explicit=None):
     rng = subseed(seed, 'universe')
     prof = U.Profile.draw(rng)
@@ -121,6 +298,7 @@ def run_one(seed, tier, explicit=None):
     violation = None
     evals = 0
     nt = 0
+    twin_cmp = 0
     H = ['0', '1', '2', str(prng.randint(3, 10 ** 6)), str(prng.randint(3, 10 ** 6))]
     if tier == 'thorough':
         H += [str(prng.randint(3, 10 ** 6)) for _ in range(11)]
@@ -196,11 +374,15 @@ def run_one(seed, tier, explicit=None):
                              'b': json.loads(json.dumps(d_[2]))
                              if not isinstance(d_[2], str) else d_[2][:600]},
                             tags=[name_call(d_[0])])
+            if mode == 'full':
+                twin_cmp = twin_phase(sim, u, seed)
+                evals += twin_cmp
         except Violation as v:
             violation = v.to_json()
         return {
             'seed': seed, 'violation': violation, 'digest': sim.W.event_digest(),
-            'ops': evals, 'faults': {}, 'states': [], 'probes': {'hash-seeds': len(H)},
+            'ops': evals, 'faults': {}, 'states': [],
+            'probes': {'hash-seeds': len(H), 'twin-comparisons': twin_cmp},
             'cells': [], 'evals': evals, 'nt': nt * len(H), 'known_hits': {},
             'nontrivial': bool(nt),
             'sample': {'hash_seeds': H, 'universe': plan_summary(u, [])['lexicons']},
